@@ -259,6 +259,7 @@ func (d *Decoder) Write(p []byte) (n int, err error) {
 	}
 
 	for len(d.buf) > 0 {
+		sizeUpdate := d.buf[0]&0xe0 == 0x20
 		err = d.parseHeaderFieldRepr()
 		if err == errNeedMore {
 			// Extra paranoia, making sure saveBuf won't
@@ -273,7 +274,10 @@ func (d *Decoder) Write(p []byte) (n int, err error) {
 			d.saveBuf.Write(d.buf)
 			return len(p), nil
 		}
-		d.firstField = false
+		if !sizeUpdate {
+			// RFC 7541 s4.2 allows two size updates at the start of a block
+			d.firstField = false
+		}
 		if err != nil {
 			break
 		}
